@@ -202,6 +202,32 @@ def module_on(rec, cfg):
 
 
 def run_case(case):
+    """(the case is evaluated a second time with the library's loggers at DEBUG - what `yowsup-cli -d` and applications that are
+    being debugged run with: routing does not depend on the logging configuration)"""
+    out = _run_case(case)
+    if not out.violations and case["sub"] in ("in", "out") and case.get("debug_logging"):
+        import logging
+        lg = logging.getLogger("yowsup.layers.logger.layer")
+        handler = logging.NullHandler()
+        saved = (lg.level, lg.propagate)
+        lg.addHandler(handler)
+        lg.propagate = False          # formatted, then swallowed: nothing of it reaches the check's own output
+        lg.setLevel(logging.DEBUG)
+        try:
+            configs = case.get("configs") or ALL_CONFIGS
+            out2 = _run_case(dict(case, configs=configs[:4] + configs[16:20]))
+        finally:
+            lg.setLevel(saved[0])
+            lg.propagate = saved[1]
+            lg.removeHandler(handler)
+        out.label("also_with_debug_logging")
+        for v in out2.violations:
+            out.fail(v.kind, "debug_logging:" + v.key, v.detail, case=v.case)
+        out.evals += out2.evals
+    return out
+
+
+def _run_case(case):
     out = Outcome()
     if case["sub"] == "in_sender_key":
         return run_sender_key_case(case, out)
@@ -305,10 +331,10 @@ def plan(tier):
     n = 1 if quick else 20
     for r in in_records():
         strategies.append(("in:" + r.name,
-                           S.shape_strategy(r.shape).map(lambda t, _n=r.name: {"sub": "in", "name": _n, "tree": S.tree_to_json(t)}), n))
+                           S.shape_strategy(r.shape).map(lambda t, _n=r.name: {"sub": "in", "name": _n, "tree": S.tree_to_json(t), "debug_logging": True}), n))
     for r in out_records():
         strategies.append(("out:" + r.name,
-                           S.args_strategy(r.args, r.kwargs).map(lambda ak, _n=r.name: {"sub": "out", "name": _n, "args": ak[0], "kwargs": ak[1]}), n))
+                           S.args_strategy(r.args, r.kwargs).map(lambda ak, _n=r.name: {"sub": "out", "name": _n, "args": ak[0], "kwargs": ak[1], "debug_logging": True}), n))
     for kind in SK_KINDS:
         strategies.append(("in_sender_key:" + kind,
                            S.shape_strategy(sender_key_shape(kind)).map(lambda t, _k=kind: {"sub": "in_sender_key", "kind": _k,
